@@ -95,7 +95,12 @@ package dependency
 //@   ensures result1 != nil ==> result0 == nil
 //@   trace_ensures old(InStack(d, name)) : ^BLOCK $
 //@   trace_ensures !old(InStack(d, name)) && old(d.blocked) && old(has(d.instances, name)) : ^BLOCK $
-//@   trace_ensures true : ^BLOCK (FACTORY )?$
+//@   trace_ensures true : ^BLOCK (FACTORY (DROP )*)?$
+// a definition is dropped (autoclean, clean) only after its factory has produced the instance:
+// a failed resolution leaves every definition in place for later requests
+//@   trace builtin.delete as DROP
+//@   trace (*Provider).clean as DROP
+//@   trace_ensures result1 != nil : !DROP
 //@   at_call dynamic.* requires typeis($0, "*Provider") && as($0, "*Provider") == d
 
 // ---- injection into tagged fields ----
